@@ -6,7 +6,9 @@ import common as c
 
 def traces(ctx, n):
     rec = ctx.path("join.ndjson")
-    p = c.vh(["joinrec", "--n", n, "--seed", ctx.seed, "--out", rec], timeout=1800)
+    big = 4 if ctx.quick() else 40
+    p = c.vh(["joinrec", "--n", n, "--seed", ctx.seed, "--out", rec, "--big", big], timeout=1800)
+    n = n + big
     if p.returncode != 0:
         c.recorder_failed(ctx, "joinrec", p, "join-trace")
         return
@@ -58,7 +60,8 @@ def run(ctx):
                        "StreamJoinNode and on one registered in StreamJoinManager; pairs returned by each call and buffer sizes compared; "
                        "TLC-simulated 4+4 behaviours over 3 keys; all of it again with timestamps shifted by 2^60 / 1.7e18 and with other joins "
                        "on the same streams registered in the manager (kept, or unregistered before the first event). L3 (eviction): seeded histories with watermark advances recorded from the "
-                       "real node and validated by TLC, which infers the evicted subset from the logged buffer sizes")
+                       "real node and validated by TLC, which infers the evicted subset from the logged buffer sizes; plus histories with a partition of "
+                       "70-90 events of one key arriving out of timestamp order, probed from the other side")
     ctx.assumptions += ["whole-second windows in the node's own unit convention (raw timestamp difference compared with as_secs())",
                         "inner join only (the statement); outer-join emission is outside it"]
     return c.finish(ctx, "model_checking")
